@@ -144,6 +144,7 @@ def default_knobs(rng: Rng, profile: str) -> Dict[str, Any]:
     # only where no call stack is built from them
     k["tiny_events"] = bool(k["fractional"]) and profile in ("loader", "symtab") and rng.chance(0.5)
     k["flow_p"] = rng.choice([0.0, 0.5, 0.5])
+    k["corr_overlap"] = rng.chance(0.5)
     k["boundary"] = (not k["fractional"]) and profile in ("loader", "symtab") and rng.chance(0.25)
     k["first_in_step"] = k["steps"] > 0 and (not k["pre_step_events"]) and rng.chance(0.5)
     k["wide_ops"] = 0
@@ -186,7 +187,8 @@ class _RankGen:
         self.free_at: Dict[int, int] = {s: 0 for s in self.streams}
         self.cur_tid: Any = None
         self.main_tid: Any = None
-        self.corr = 100 + rng.below(50) + rank_pos * 100000
+        # per-process counters: ranks reuse each other's correlation ids unless the knob separates them
+        self.corr = 100 + rng.below(50) + (0 if knobs.get("corr_overlap") else rank_pos * 100000)
         self.ext_id = 1
         # entries: dicts with "_t" (sort time in ticks), "_grp" (host/device/other), event body
         self.entries: List[Dict[str, Any]] = []
